@@ -752,6 +752,16 @@ theorem c10_shipped_membrane_blocks_own_signatures (env : Env) (m' : Membrane) (
     rw [hsame.2] at this
     omega
 
+/-- **`ThreatSignature.matches` and `TLRPattern.matches` of the current source are the model's `Sig.matches`**:
+    the two methods (with the `__post_init__` that compiles a regex signature — IGNORECASE only, exactly when
+    `is_regex`), translated from the Python AST on every run: a regex signature asks `search` of its compiled pattern
+    on the WHOLE content, a substring signature asks containment after `casefold()` on both sides.  (`match` /
+    `fullmatch`, a slice or other transformation of the content, `lower()`, another compile flag, a stripped pattern,
+    an extra guard leave the translator's subset and this theorem fails.) -/
+theorem c10_translation_agrees_matches (env : Env) (s : Sig) (c : Str) :
+    Tr.memMatches env s c = s.matches env c ∧ Tr.innMatches env s c = s.matches env c :=
+  ⟨rfl, rfl⟩
+
 /-! ## The shipped regex signatures (their parse trees are regenerated from the shipped tables on every run) -/
 
 /-- every regex of the two shipped tables, as (pattern text, parse tree) -/
